@@ -833,7 +833,7 @@ func main() {
 	emit := func(k *Case) {
 		if *mode == "props" {
 			line, v := k.runProps()
-			o.Case(line, v+"\tok")
+			o.Case("props-"+line, v+"\tok") // first field marks the mode for -replay
 			return
 		}
 		line, impl := k.run()
@@ -843,6 +843,9 @@ func main() {
 		data, err := os.ReadFile(*replay)
 		must(err)
 		for _, l := range strings.Split(string(data), "\n") {
+			if strings.HasPrefix(l, "props-") {
+				*mode = "props"
+			}
 			i := strings.Index(l, "case=x")
 			if i < 0 {
 				continue
